@@ -350,3 +350,36 @@ Qed.
 Lemma string_contributes d s : contributes d (AStr s) = [s].
 Proof. reflexivity. Qed.
 End Values.
+
+(* ---- the reply kind (action, noLengthCheck, notice, private, to=) never matters for what runs and with what ---- *)
+Section Kinds.
+Variables f1 f2 : list str -> finalres.
+Variable K : config.
+Hypothesis same : forall strs,
+  fr_call (f1 strs) = fr_call (f2 strs) /\ fr_tag (f1 strs) = fr_tag (f2 strs) /\ fr_res (f1 strs) = fr_res (f2 strs).
+
+Lemma finish_ext child d sub r : finish f1 K child d sub r = finish f2 K child d sub r.
+Proof.
+  unfold finish. destruct (too_deep K d); [reflexivity|]. destruct sub; [reflexivity|].
+  destruct r as [lg [o|[|s strs]]]; try reflexivity.
+  destruct (same (s :: strs)) as (H1 & H2 & H3). unfold res_of. rewrite H1, H2, H3. reflexivity.
+Qed.
+
+Lemma spec_list_with_ext (g1 g2 : arg -> list entry * sres) l :
+  Forall (fun a => g1 a = g2 a) l -> spec_list_with g1 l = spec_list_with g2 l.
+Proof. induction 1 as [|a r Ha Hr IH]; simpl; [reflexivity|]. rewrite Ha, IH. reflexivity. Qed.
+
+Lemma spec_arg_ext a : forall d, spec_arg f1 K d a = spec_arg f2 K d a.
+Proof.
+  induction a as [s|l IH] using arg_ind2; intro d; simpl; [reflexivity|].
+  rewrite finish_ext. f_equal. apply spec_list_with_ext.
+  apply Forall_forall. intros x Hx. rewrite Forall_forall in IH. apply IH. exact Hx.
+Qed.
+
+Theorem eval_spec_ext tokens : eval_spec f1 K tokens = eval_spec f2 K tokens.
+Proof.
+  unfold eval_spec, Model.spec_list. rewrite finish_ext.
+  rewrite (spec_list_with_ext (fun x => spec_arg f1 K 0 x) (fun x => spec_arg f2 K 0 x) tokens); [reflexivity|].
+  apply Forall_forall. intros x _. apply spec_arg_ext.
+Qed.
+End Kinds.
